@@ -393,6 +393,12 @@ def run(chk, repo):
                        "each of these needs its own copy (one Stream object used in several terms is advanced several "
                        "times per sample)", node=arm)
 
+    # the builders of time-varying filters (resonators, low/high-pass designs with Stream parameters): the same
+    # linear-use obligations as C13's R4.1 / R4.2 - a Stream expression bound once and used in three coefficients is
+    # read three times per output sample
+    from .c13 import design_hub_budgets
+    design_hub_budgets(chk, repo)
+
     # -------------------------------------------------- R4.3 / R4.4 carriers
     chk.rule("R4.3", "in an arithmetic dunder, on every path, each carrier (self/other .numpoly/.denpoly, self, "
                      "other) has at most one use that is not the receiver of .copy(), and every .copy() use comes "
